@@ -482,6 +482,237 @@ example : QFrom f27Q f27Areas 1 ∧ 0 ≤ f27Q.ns ∧ 0 ≤ f27Q.ew ∧
   ⟨C18_qfrom_make _ _ _ _ _, by decide +kernel, by decide +kernel, by decide +kernel, by decide +kernel,
    ⟨.S, rfl⟩, by decide +kernel⟩
 
+/-! ## Quarantine escape for ANY area ids (finding F30)
+
+  The property quantifies over every quarantine-area raster; `C18_escape_iff` and `C18_nearest`
+  above assume `hnn`: no listed cell has a negative area id. This section
+  * weakens `hnn` to the INFECTED listed cells (`C18_escape_iff_infected_nonneg`,
+    `C18_nearest_infected_nonneg`: negative ids at cells without infection change nothing, and
+    there "area value 0" is "outside every quarantine area" in the general sense), and
+  * states the property without any restriction (`C18_escape_full`: a cell whose id is not
+    positive, or not the id of any area, lies outside every quarantine area) and REFUTES it for
+    the code as it is (`C18_escape_full_fails`): `action` treats only the value 0 as "no area"
+    and looks a negative id up with `boundary_id_idx_map[area]`, which inserts the unknown key with
+    index 0 - the cell is measured against the first registered area's box, or `boundaries.at(0)`
+    throws when no positive id exists.
+  `hnn` of the two `_infected_nonneg` theorems is the `_partial` condition; its negation
+  (`negativeIdAtInfected`) is the region of the open finding F30 the driver uses. -/
+
+theorem mem_presentCells {inf : IRaster} {cells : List Cell} {c : Cell} :
+    c ∈ presentCells inf cells ↔ c ∈ cells ∧ inf.at c.1 c.2 ≠ 0 := by
+  simp [presentCells]
+
+theorem presentCells_idem (inf : IRaster) (cells : List Cell) :
+    presentCells inf (presentCells inf cells) = presentCells inf cells := by
+  simp [presentCells, List.filter_filter]
+
+/-- The loop of `action` skips the cells without infection: it depends on the infected listed
+    cells only. -/
+theorem escapeLoop_presentCells (q : Quarantine) (inf areas : IRaster) :
+    ∀ (cells : List Cell) (acc : Option (Rat × Dir)),
+      escapeLoop q inf areas (presentCells inf cells) acc = escapeLoop q inf areas cells acc := by
+  intro cells
+  induction cells with
+  | nil => intro acc; rfl
+  | cons c cs ih =>
+    intro acc
+    by_cases h0 : inf.at c.1 c.2 = 0
+    · have hp : presentCells inf (c :: cs) = presentCells inf cs := by simp [presentCells, h0]
+      rw [hp, ih]
+      simp only [escapeLoop, h0, if_true]
+    · have hp : presentCells inf (c :: cs) = c :: presentCells inf cs := by simp [presentCells, h0]
+      rw [hp]
+      simp only [escapeLoop, h0, if_false]
+      split
+      · rfl
+      · split
+        · rfl
+        · exact ih _
+
+theorem action_presentCells (q : Quarantine) (cells : List Cell) (inf areas : IRaster) (step : Nat) :
+    q.action (presentCells inf cells) inf areas step = q.action cells inf areas step := by
+  simp only [Quarantine.action, escapeLoop_presentCells]
+
+/-- `specEscapedFull` spelled out. -/
+theorem specEscapedFull_iff (inf areas : IRaster) (cells : List Cell) :
+    specEscapedFull inf areas cells = true ↔
+      ∃ c ∈ cells, inf.at c.1 c.2 ≠ 0 ∧
+        (areas.at c.1 c.2 ≤ 0 ∨ specAreaBox areas (areas.at c.1 c.2) = none) := by
+  simp only [specEscapedFull, outsideEveryArea, List.any_eq_true, Bool.or_eq_true, decide_eq_true_eq,
+    Option.isNone_iff_eq_none]
+  constructor
+  · rintro ⟨c, hc, h⟩; exact ⟨c, (mem_presentCells.mp hc).1, (mem_presentCells.mp hc).2, h⟩
+  · rintro ⟨c, hc, hi, h⟩; exact ⟨c, mem_presentCells.mpr ⟨hc, hi⟩, h⟩
+
+/-- Where no infected listed cell has a negative id, "outside every quarantine area" is "area
+    value 0". -/
+theorem specEscapedFull_eq_of_infected_nonneg (areas inf : IRaster) (cells : List Cell)
+    (hin : ∀ c ∈ cells, InRange areas.rows areas.cols c)
+    (hnn : ∀ c ∈ cells, inf.at c.1 c.2 ≠ 0 → 0 ≤ areas.at c.1 c.2) :
+    specEscapedFull inf areas cells = specEscaped inf areas cells := by
+  rw [Bool.eq_iff_iff, specEscapedFull_iff]
+  simp only [specEscaped, List.any_eq_true, beq_iff_eq]
+  constructor
+  · rintro ⟨c, hc, hi, h⟩
+    refine ⟨c, mem_presentCells.mpr ⟨hc, hi⟩, ?_⟩
+    have h0 := hnn c hc hi
+    rcases h with h | h
+    · omega
+    · by_cases hz : areas.at c.1 c.2 = 0
+      · exact hz
+      · obtain ⟨b, _, hb, _⟩ := own_area_box areas c (hin c hc) (by omega)
+        rw [hb] at h; cases h
+  · rintro ⟨c, hc, hz⟩
+    exact ⟨c, (mem_presentCells.mp hc).1, (mem_presentCells.mp hc).2, Or.inl (by omega)⟩
+
+/-- `C18_escape_iff` with `hnn` required of the INFECTED listed cells only, and with the general
+    reading of "outside every quarantine area": escape is reported exactly when an infected listed
+    cell has an id that is not positive or is not the id of any area. -/
+theorem C18_escape_iff_infected_nonneg (areas inf : IRaster) (N : Nat) (q : Quarantine) (hq : QFrom q areas N)
+    (cells : List Cell) (hin : ∀ c ∈ cells, InRange areas.rows areas.cols c)
+    (hnn : ∀ c ∈ cells, inf.at c.1 c.2 ≠ 0 → 0 ≤ areas.at c.1 c.2) (step : Nat) (hstep : step < N) :
+    ∃ q' info, q.action cells inf areas step = .ok q' ∧ QFrom q' areas N ∧
+      (q'.dirs = q.dirs ∧ q'.ns = q.ns ∧ q'.ew = q.ew) ∧
+      q'.infos[step]? = some info ∧
+      (info.escaped = true ↔ ∃ c ∈ cells, inf.at c.1 c.2 ≠ 0 ∧
+          (areas.at c.1 c.2 ≤ 0 ∨ specAreaBox areas (areas.at c.1 c.2) = none)) ∧
+      info.escaped = specEscapedFull inf areas cells ∧
+      (info.escaped = true ↔ ∃ c ∈ cells, inf.at c.1 c.2 ≠ 0 ∧ areas.at c.1 c.2 = 0) ∧
+      info.escaped = specEscaped inf areas cells ∧
+      (info.escaped = true → info.dist = .nan ∧ info.dir = .none) ∧
+      (∀ j, j ≠ step → q'.infos[j]? = q.infos[j]?) := by
+  obtain ⟨q', info, hact, hqf, hpar, hinfo, hiff, hspec, hnan, hrest⟩ :=
+    C18_escape_iff areas inf N q hq (presentCells inf cells)
+      (fun c hc => hin c (mem_presentCells.mp hc).1)
+      (fun c hc => hnn c (mem_presentCells.mp hc).1 (mem_presentCells.mp hc).2) step hstep
+  rw [action_presentCells] at hact
+  have hspec' : info.escaped = specEscaped inf areas cells := by
+    rw [hspec]; unfold specEscaped; rw [presentCells_idem]
+  have hfull : info.escaped = specEscapedFull inf areas cells := by
+    rw [hspec', specEscapedFull_eq_of_infected_nonneg areas inf cells hin hnn]
+  refine ⟨q', info, hact, hqf, hpar, hinfo, ?_, hfull, ?_, hspec', hnan, hrest⟩
+  · rw [hfull]; exact specEscapedFull_iff inf areas cells
+  · rw [hiff]
+    constructor
+    · rintro ⟨c, hc, h⟩; exact ⟨c, (mem_presentCells.mp hc).1, h⟩
+    · rintro ⟨c, hc, hi, h⟩; exact ⟨c, mem_presentCells.mpr ⟨hc, hi⟩, hi, h⟩
+
+/-- `C18_nearest` with `hnn` required of the INFECTED listed cells only: negative ids at cells
+    without infection do not disturb the boxes of the positive ids or the report. -/
+theorem C18_nearest_infected_nonneg (areas inf : IRaster) (N : Nat) (q : Quarantine) (hq : QFrom q areas N)
+    (hns : 0 ≤ q.ns) (hew : 0 ≤ q.ew)
+    (hbn : (areas.rows : Rat) * q.ns < (dblMax : Rat)) (hbe : (areas.cols : Rat) * q.ew < (dblMax : Rat))
+    (hen : ∃ d, q.dirs.enabled d = true)
+    (cells : List Cell) (hin : ∀ c ∈ cells, InRange areas.rows areas.cols c)
+    (hnn : ∀ c ∈ cells, inf.at c.1 c.2 ≠ 0 → 0 ≤ areas.at c.1 c.2) (step : Nat) (hstep : step < N)
+    (hno : ¬ ∃ c ∈ cells, inf.at c.1 c.2 ≠ 0 ∧ areas.at c.1 c.2 = 0)
+    (hsome : ∃ c ∈ cells, inf.at c.1 c.2 ≠ 0) :
+    ∃ q' c b dir, q.action cells inf areas step = .ok q' ∧
+      c ∈ cells ∧ inf.at c.1 c.2 ≠ 0 ∧ specAreaBox areas (areas.at c.1 c.2) = some b ∧
+      q.dirs.enabled dir = true ∧
+      q'.infos[step]? = some ⟨false, .val (lround (sideDist b q.ns q.ew c dir)), dir⟩ ∧
+      (∀ c' ∈ cells, inf.at c'.1 c'.2 ≠ 0 → ∀ b', specAreaBox areas (areas.at c'.1 c'.2) = some b' →
+          ∀ d', q.dirs.enabled d' = true → sideDist b q.ns q.ew c dir ≤ sideDist b' q.ns q.ew c' d') ∧
+      (∃ pre post, nearestCandidates inf areas cells q.dirs q.ns q.ew =
+            pre ++ (sideDist b q.ns q.ew c dir, dir) :: post ∧
+          (∀ x ∈ pre, sideDist b q.ns q.ew c dir < x.1) ∧
+          (∀ y ∈ post, sideDist b q.ns q.ew c dir ≤ y.1)) ∧
+      nearestOK inf areas cells q.dirs q.ns q.ew (lround (sideDist b q.ns q.ew c dir)) dir = true := by
+  obtain ⟨c0, hc0, hi0⟩ := hsome
+  obtain ⟨q', c, b, dir, hact, hc, hi, hsb, hdir, hinfo, hle, ⟨pre, post, hsplit, hpre, hpost⟩, hok⟩ :=
+    C18_nearest areas inf N q hq hns hew hbn hbe hen (presentCells inf cells)
+      (fun c hc => hin c (mem_presentCells.mp hc).1)
+      (fun c hc => hnn c (mem_presentCells.mp hc).1 (mem_presentCells.mp hc).2) step hstep
+      (by rintro ⟨c, hc, h⟩; exact hno ⟨c, (mem_presentCells.mp hc).1, h⟩)
+      ⟨c0, mem_presentCells.mpr ⟨hc0, hi0⟩, hi0⟩
+  rw [action_presentCells] at hact
+  refine ⟨q', c, b, dir, hact, (mem_presentCells.mp hc).1, hi, hsb, hdir, hinfo, ?_, ⟨pre, post, ?_, hpre, hpost⟩, ?_⟩
+  · intro c' hc' hi'; exact hle c' (mem_presentCells.mpr ⟨hc', hi'⟩) hi'
+  · rw [← hsplit]; unfold nearestCandidates; rw [presentCells_idem]
+  · rw [← hok]; unfold nearestOK; rw [presentCells_idem]
+
+/-- The property's statement on escape WITHOUT the restriction `hnn`, for any area ids: from any
+    reachable state, `action` on the constructor's raster succeeds and reports escape exactly when an
+    infected listed cell lies outside every quarantine area - its id is not positive (0, or a
+    negative value) or is not the id of any area of the raster. -/
+def C18_escape_full : Prop :=
+  ∀ (areas inf : IRaster) (N : Nat) (q : Quarantine), QFrom q areas N →
+    ∀ (cells : List Cell), (∀ c ∈ cells, InRange areas.rows areas.cols c) →
+    ∀ (step : Nat), step < N →
+      ∃ q' info, q.action cells inf areas step = .ok q' ∧ q'.infos[step]? = some info ∧
+        (info.escaped = true ↔ ∃ c ∈ cells, inf.at c.1 c.2 ≠ 0 ∧
+            (areas.at c.1 c.2 ≤ 0 ∨ specAreaBox areas (areas.at c.1 c.2) = none))
+
+/-- Witness (a) of finding F30: a 1 x 5 raster with ids `[-1, -1, 1, 1, 1]` (area 1 = columns
+    2..4), the infected cell in column 0 (id -1), sides E and W enabled, resolutions 1. -/
+def f30Areas : IRaster := ⟨1, 5, [-1, -1, 1, 1, 1]⟩
+def f30Inf : IRaster := ⟨1, 5, [1, 0, 0, 0, 0]⟩
+/-- the same area raster, infection inside area 1 (column 3): negative ids at non-infected cells only -/
+def f30InfInside : IRaster := ⟨1, 5, [0, 0, 0, 1, 0]⟩
+def f30Dirs : Dirs := ⟨false, false, true, true⟩
+def f30Q : Quarantine := Quarantine.make f30Areas 1 1 1 f30Dirs
+/-- Witness (b): a 2 x 3 raster of -1 only (no positive id), infected cell (1,1), all sides. -/
+def f30AreasB : IRaster := ⟨2, 3, [-1, -1, -1, -1, -1, -1]⟩
+def f30InfB : IRaster := ⟨2, 3, [0, 0, 0, 0, 1, 0]⟩
+def f30QB : Quarantine := Quarantine.make f30AreasB 1 1 1 Dirs.all
+
+/-- What the model (= the code, see the probe notes/probes/f30_negative_area_id.cpp and case 0 of
+    h_metric) returns on the witnesses.
+    (a) the table holds area 1 only; the lookup of id -1 falls back to entry 0 (the key inserted by
+    `boundary_id_idx_map[area]`), so the infected cell in column 0 is measured against the box of
+    area 1: east side 4 - 0 = 4, west side 0 - 2 = -2, report (not escaped, -2, W) although the cell
+    lies outside every quarantine area;
+    (b) the table is empty, `boundaries.at(0)` throws `std::out_of_range`;
+    (c) with the infection inside area 1 the negative ids change nothing: (not escaped, 1, E), which
+    is the report of a nearest pair. -/
+theorem C18_negative_area_id_witness :
+    (quarantineBoundary f30Areas = [(1, ⟨0, 0, 4, 2⟩)] ∧
+     lookupBox (quarantineBoundary f30Areas) (-1) = some ⟨0, 0, 4, 2⟩ ∧
+     (f30Q.action (allCells 1 5) f30Inf f30Areas 0).toOption.map (·.infos) = some [⟨false, .val (-2), .W⟩] ∧
+     specEscapedFull f30Inf f30Areas (allCells 1 5) = true ∧
+     negativeIdAtInfected f30Inf f30Areas (allCells 1 5) = true) ∧
+    (quarantineBoundary f30AreasB = [] ∧
+     (match f30QB.action (allCells 2 3) f30InfB f30AreasB 0 with
+      | .error e => some e
+      | .ok _ => none) = some ErrKind.out_of_range ∧
+     specEscapedFull f30InfB f30AreasB (allCells 2 3) = true ∧
+     negativeIdAtInfected f30InfB f30AreasB (allCells 2 3) = true) ∧
+    ((f30Q.action (allCells 1 5) f30InfInside f30Areas 0).toOption.map (·.infos) = some [⟨false, .val 1, .E⟩] ∧
+     specEscapedFull f30InfInside f30Areas (allCells 1 5) = false ∧
+     negativeIdAtInfected f30InfInside f30Areas (allCells 1 5) = false ∧
+     nearestOK f30InfInside f30Areas (allCells 1 5) f30Dirs 1 1 1 .E = true) := by
+  decide +kernel
+
+/-- The unrestricted statement is FALSE for the code as it is (finding F30): on witness (a) the
+    infected cell has id -1, so it lies outside every quarantine area, and `action` reports "not
+    escaped". -/
+theorem C18_escape_full_fails : ¬ C18_escape_full := by
+  intro h
+  obtain ⟨q', info, hact, hinfo, hiff⟩ := h f30Areas f30Inf 1 f30Q (C18_qfrom_make _ _ _ _ _) (allCells 1 5)
+    (fun _ hc => mem_allCells.mp hc) 0 (by decide)
+  have hw : (f30Q.action (allCells 1 5) f30Inf f30Areas 0).toOption.map (·.infos) =
+      some [⟨false, .val (-2), .W⟩] := by decide +kernel
+  rw [hact] at hw
+  have hq : q'.infos = [⟨false, .val (-2), .W⟩] := by simpa [Except.toOption] using hw
+  rw [hq] at hinfo
+  have hi : info = ⟨false, .val (-2), .W⟩ := by simpa using hinfo.symm
+  have hex : ∃ c ∈ allCells 1 5, f30Inf.at c.1 c.2 ≠ 0 ∧
+      (f30Areas.at c.1 c.2 ≤ 0 ∨ specAreaBox f30Areas (f30Areas.at c.1 c.2) = none) :=
+    ⟨(0, 0), by decide, by decide, Or.inl (by decide)⟩
+  have := hiff.mpr hex
+  rw [hi] at this
+  cases this
+
+/-- Hypotheses of the two `_infected_nonneg` theorems on a raster WITH negative ids (witness (c)):
+    they are satisfiable beyond the domain of `C18_escape_iff` / `C18_nearest`, whose `hnn` fails
+    there. -/
+example : QFrom f30Q f30Areas 1 ∧ (∀ c ∈ allCells 1 5, InRange f30Areas.rows f30Areas.cols c) ∧
+    (∀ c ∈ allCells 1 5, f30InfInside.at c.1 c.2 ≠ 0 → 0 ≤ f30Areas.at c.1 c.2) ∧
+    ¬ (∀ c ∈ allCells 1 5, 0 ≤ f30Areas.at c.1 c.2) ∧
+    (¬ ∃ c ∈ allCells 1 5, f30InfInside.at c.1 c.2 ≠ 0 ∧ f30Areas.at c.1 c.2 = 0) ∧
+    (∃ c ∈ allCells 1 5, f30InfInside.at c.1 c.2 ≠ 0) :=
+  ⟨C18_qfrom_make _ _ _ _ _, fun _ hc => mem_allCells.mp hc, by decide, by decide, by decide, by decide⟩
+
 /-! ## Sum and area -/
 
 /-- `sum_of_infected` adds the listed cells modulo 2^32 and `area_of_infected` is the number of
